@@ -2474,22 +2474,38 @@ class Trimesh(Geometry3D):
                 matrix,
             )[0]
 
-        # preserve face normals if we have them stored
-        if has_rotation and "face_normals" in self._cache:
-            # transform face normals by rotation component
-            self._cache.cache["face_normals"] = util.unitize(
-                transformations.transform_points(
-                    self.face_normals, matrix=matrix, translate=False
-                )
+        # normals are only carried along by the matrix if it preserves
+        # angles, i.e. is made of rotation, reflection and uniform scale:
+        # for non-uniform scale or shear they have to be regenerated
+        conformal = True
+        if has_rotation:
+            gram = np.dot(matrix[:3, :3], matrix[:3, :3].T)
+            scale = np.trace(gram) / 3.0
+            conformal = bool(scale > 0.0) and util.allclose(
+                gram / scale, _IDENTITY3, 1e-8
             )
 
-        # preserve vertex normals if we have them stored
-        if has_rotation and "vertex_normals" in self._cache:
-            self._cache.cache["vertex_normals"] = util.unitize(
-                transformations.transform_points(
-                    self.vertex_normals, matrix=matrix, translate=False
+        # which normals can be kept in the cache
+        normals = set()
+        if conformal:
+            normals = {"face_normals", "vertex_normals"}
+
+            # preserve face normals if we have them stored
+            if has_rotation and "face_normals" in self._cache:
+                # transform face normals by rotation component
+                self._cache.cache["face_normals"] = util.unitize(
+                    transformations.transform_points(
+                        self.face_normals, matrix=matrix, translate=False
+                    )
                 )
-            )
+
+            # preserve vertex normals if we have them stored
+            if has_rotation and "vertex_normals" in self._cache:
+                self._cache.cache["vertex_normals"] = util.unitize(
+                    transformations.transform_points(
+                        self.vertex_normals, matrix=matrix, translate=False
+                    )
+                )
 
         # values which only depend on `faces` can be kept in cache
         topology = {
@@ -2524,7 +2540,7 @@ class Trimesh(Geometry3D):
 
         # preserve normals which were transformed by us and
         # topology in cache while dumping everything else
-        self._cache.clear(exclude={"face_normals", "vertex_normals"} | topology)
+        self._cache.clear(exclude=normals | topology)
         # set the cache ID with the current hash value
         self._cache.id_set()
         return self
